@@ -1,4 +1,5 @@
 import Anysystem.Props.C15
+import Anysystem.Proofs.R5Snap
 #print axioms Anysystem.snapshotEvents_spec
 #print axioms Anysystem.snapshotSource_live
 #print axioms Anysystem.snapshotSource_complete
@@ -6,3 +7,7 @@ import Anysystem.Props.C15
 #print axioms Anysystem.snapshotNet_spec
 #print axioms Anysystem.snapshot_first_offered
 #print axioms Anysystem.snapshot_timers_in_firing_order
+#print axioms Anysystem.snapshot_sim'
+#print axioms Anysystem.snapshot_ok
+#print axioms Anysystem.snapshot_sendsKnown
+#print axioms Anysystem.snapWF_quiet
